@@ -2529,7 +2529,14 @@ void abbreviation_from_bracket(const char * source, scratch_pad * scratch, token
 
 
 void read_table_column_alignments(const char * source, token * table, scratch_pad * scratch) {
-	token * walker = table->child->child;
+	token * walker = table->child;
+
+	// A list marker precedes the header when the table opens a list item
+	while (walker && (walker->type != BLOCK_TABLE_HEADER)) {
+		walker = walker->next;
+	}
+
+	walker = walker ? walker->child : NULL;
 
 	scratch->table_alignment[0] = '\0';
 	scratch->table_column_count = 0;
